@@ -724,6 +724,136 @@ async fn snapshot_roundtrip(r: &mut StdRng, n: u64, dir: &str, rep: &mut Report)
     Ok(())
 }
 
+/// the transfer / backup file is a fifth consumer and the only one with its own WRITER in front of the codec: records go through
+/// TransferWriter (prefix, header, one length-prefixed record per item) and come back through TransferReader (whole file in memory,
+/// `new_with_data`) and TransferFileReader (positional reads). The sequence read must be the sequence written - same records, same
+/// order - for every mix of sizes, incl. records of the size of an I/O block and of more than 2 MiB.
+async fn transfer_roundtrip(r: &mut StdRng, n: u64, dir: &str, big: bool, rep: &mut Report) -> anyhow::Result<()> {
+    use rnacos::common::constant::{CONFIG_TREE_NAME, USER_TREE_NAME};
+    use rnacos::transfer::model::{TransferHeaderDto, TransferRecordDto};
+    use rnacos::transfer::reader::{TransferFileReader, TransferReader};
+    use rnacos::transfer::writer::TransferWriter;
+    for si in 0..n {
+        let path = format!("{}/transfer_{}", dir, si);
+        std::fs::remove_file(&path).ok();
+        let mut header = TransferHeaderDto::new(1);
+        let tables = [CONFIG_TREE_NAME.clone(), USER_TREE_NAME.clone()];
+        for t in &tables {
+            header.add_name(t.clone());
+        }
+        let ids: Vec<u32> = tables.iter().map(|t| *header.name_to_id.get(t).unwrap_or(&0)).collect();
+        let mut w = TransferWriter::init(&path, header).await?;
+        let cnt = r.gen_range(1..60);
+        let mode = r.gen_range(0..5);
+        let mut recs: Vec<TransferRecordDto> = vec![];
+        let mut classes: std::collections::BTreeSet<&'static str> = std::collections::BTreeSet::new();
+        for i in 0..cnt {
+            let vlen = match mode {
+                0 => r.gen_range(0..300),
+                1 => *pick(r, &[900usize, 1000, 1005, 1008, 1012, 1016, 2030, 4090, 8190, 16380]),
+                2 => *pick(r, &[10usize, 200, 5_000, 32_760, 65_500, 65_530, 65_536, 65_540, 70_000, 131_072, 200_000]),
+                3 => if r.gen_range(0..6) == 0 { r.gen_range(60_000..400_000) } else { r.gen_range(0..3_000) },
+                _ => if big && i == cnt / 2 { r.gen_range(2_100_000..2_600_000) } else { r.gen_range(0..20_000) },
+            };
+            classes.insert(size_class(vlen));
+            let t = (i as usize) % 2;
+            // both spellings a writer may use: table id from the header, or table name with id 0
+            let by_id = r.gen_range(0..2) == 0;
+            let rec = TransferRecordDto { table_name: if by_id { None } else { Some(tables[t].clone()) }, table_id: if by_id { ids[t] } else { 0 }, key: format!("k{}-{}", si, i).into_bytes(), value: body(r, vlen) };
+            w.write_record(&rec).await?;
+            recs.push(rec);
+        }
+        w.flush().await?;
+        drop(w);
+        let want: Vec<(String, Vec<u8>, usize, u64)> = recs.iter().enumerate().map(|(i, x)| (tables[i % 2].as_ref().clone(), x.key.clone(), x.value.len(), crc(&x.value))).collect();
+        let data = std::fs::read(&path)?;
+        let flen = data.len();
+        let got_mem: Result<anyhow::Result<Vec<(String, Vec<u8>, usize, u64)>>, String> = guarded(|| {
+            let mut rd = TransferReader::new(data)?;
+            let mut got = vec![];
+            while let Some(x) = rd.read_record()? {
+                got.push((x.table_name.as_ref().clone(), x.key.to_vec(), x.value.len(), crc(&x.value)));
+                if got.len() > want.len() + 2 {
+                    break;
+                }
+            }
+            Ok(got)
+        });
+        rep.evaluations += 1;
+        let witness = json!({"value_lens": recs.iter().map(|x| x.value.len()).collect::<Vec<_>>(), "file_len": flen, "mode": mode});
+        let mut ok = true;
+        match got_mem {
+            Ok(Ok(got)) => {
+                if got != want {
+                    ok = false;
+                    let mut a: Vec<&Vec<u8>> = got.iter().map(|x| &x.1).collect();
+                    let mut b: Vec<&Vec<u8>> = want.iter().map(|x| &x.1).collect();
+                    a.sort();
+                    b.sort();
+                    let sym = if got.len() < want.len() { "early-end" } else if got.len() > want.len() { "phantom-records" } else if a == b { "order-differs" } else { "records-differ" };
+                    rep.violation(format!("transfer-reader/{}", sym), json!({"case": witness, "returned": got.len(), "expected": want.len(),
+                        "first_keys_returned": got.iter().take(8).map(|x| String::from_utf8_lossy(&x.1).to_string()).collect::<Vec<_>>()}));
+                }
+            }
+            Ok(Err(e)) => {
+                ok = false;
+                rep.violation("transfer-reader/error".to_string(), json!({"case": witness, "error": e.to_string()}));
+            }
+            Err(p) => {
+                ok = false;
+                rep.violation("transfer-reader/panic".to_string(), json!({"case": witness, "panic": p}));
+            }
+        }
+        // positional reader: same number of records, same raw bytes order (compared through the record count and key order)
+        let got_file = guarded_async(async {
+            let mut rd = TransferFileReader::new(&path).await?;
+            let mut n_rec = 0usize;
+            while let Ok(Some(v)) = rd.read_record_vec().await {
+                if v.is_empty() {
+                    break;
+                }
+                n_rec += 1;
+                if n_rec > want.len() + 2 {
+                    break;
+                }
+            }
+            Ok::<usize, anyhow::Error>(n_rec)
+        })
+        .await;
+        rep.evaluations += 1;
+        match got_file {
+            Ok(Ok(n_rec)) if n_rec == want.len() => {}
+            Ok(Ok(n_rec)) => {
+                ok = false;
+                rep.violation(format!("transfer-file-reader/{}", if n_rec < want.len() { "early-end" } else { "phantom-records" }), json!({"case": witness, "returned": n_rec, "expected": want.len()}));
+            }
+            Ok(Err(e)) => {
+                ok = false;
+                rep.violation("transfer-file-reader/error".to_string(), json!({"case": witness, "error": e.to_string()}));
+            }
+            Err(p) => {
+                ok = false;
+                rep.violation("transfer-file-reader/panic".to_string(), json!({"case": witness, "panic": p}));
+            }
+        }
+        if ok {
+            rep.shape(format!("transfer/mode{}/{}", mode, classes.iter().copied().collect::<Vec<_>>().join("+")));
+        }
+        std::fs::remove_file(&path).ok();
+    }
+    Ok(())
+}
+
+fn crc(v: &[u8]) -> u64 {
+    // cheap order-sensitive digest of a value (the values are megabytes in the big lane)
+    let mut h: u64 = 0xcbf29ce484222325;
+    for b in v {
+        h ^= *b as u64;
+        h = h.wrapping_mul(0x100000001b3);
+    }
+    h
+}
+
 /// LogInnerManager: write records whose encoded end lands on/near the 1024-byte scan chunk, re-init, compare
 async fn log_roundtrip(r: &mut StdRng, n: u64, dir: &str, rep: &mut Report) -> anyhow::Result<()> {
     for si in 0..n {
@@ -813,6 +943,7 @@ pub fn run(args: &Args) -> anyhow::Result<()> {
         snapshot_roundtrip(&mut r, 60 * scale, &dir, &mut rep).await?;
         log_roundtrip(&mut r, 30 * scale, &dir, &mut rep).await?;
         instance_meta_repo(&mut r, 6 * scale, &dir, &mut rep).await?;
+        transfer_roundtrip(&mut r, 40 * scale, &dir, big, &mut rep).await?;
         Ok::<(), anyhow::Error>(())
     })?;
     rep.write(args)
